@@ -54,7 +54,10 @@ def handle (op : String) (args : List String) (impl : String) : Verdict :=
           | some r =>
             if kind == "display" then
               let overPad := a.scale ≤ 0 && ((-a.scale).toNat + (if n == 0 then 0 else n + 1) > cfg.maxPadding)
-              if overPad then (C04.safeValueEq r a, "over-padding case must stay exact")
+              if overPad then
+                -- "printed unpadded (keeping an exponent when they have one) and still denote the exact
+                -- value": the text reads back as the very same digits and scale (C16_display_precision)
+                (decide (r = a), "beyond the padding limit the integer must be printed unpadded and exact")
               else
                 let want := Spec.roundToScale a n cfg.mode
                 (Spec.valueEq r want && fractionDigitCount base == n, "want " ++ showDec want ++ " got " ++ showDec r)
